@@ -38,3 +38,51 @@ package segment
 //@ func (*PathSegment).Validate
 //@   trusted
 //@   modifies nothing
+
+//@ # ---- C24: which entry is verified, under which verifier binding, over how much earlier data.
+//@ # A verifier value carries the ISD-AS and the validity it is bound to (model functions of the interface value).
+//@ spec func vIA(v Verifier) uint64 uninterpreted
+//@ spec func vNB(v Verifier) int64 uninterpreted
+//@ spec func vNA(v Verifier) int64 uninterpreted
+//@ import cryptopb "github.com/scionproto/scion/pkg/proto/crypto"
+//@ # call log (ghost) of Verifier.Verify: the message verified last, how many associated byte strings it was given,
+//@ # whether it succeeded, and the binding of the verifier used
+//@ ghost var vMsg *cryptopb.SignedMessage
+//@ ghost var vLen int
+//@ ghost var vOK bool
+//@ ghost var vUsedIA uint64
+//@ ghost var vUsedNB int64
+//@ ghost var vUsedNA int64
+//@ iface Verifier.Verify
+//@   modifies vMsg, vLen, vOK, vUsedIA, vUsedNB, vUsedNA
+//@   ensures vMsg == signedMsg && vLen == len(associatedData) && vOK == (result1 == nil)
+//@   ensures vUsedIA == vIA(self) && vUsedNB == vNB(self) && vUsedNA == vNA(self)
+
+//@ # per entry (ghost maps keyed by entry index): verified in the most recent VerifyASEntry on that index, and how
+//@ ghost var okEntry map[int]bool
+//@ ghost var okIA map[int]uint64
+//@ ghost var okNB map[int]int64
+//@ ghost var okNA map[int]int64
+
+//@ # the signature of entry idx covers the segment info and, in order, the signed body and the signature of EVERY
+//@ # earlier entry: 1 + 2*idx byte strings
+//@ macro entriesOK(ps) = (forall ek int :: 0 <= ek && ek < len(ps.ASEntries) ==> ps.ASEntries[ek].Signed != nil)
+//@ func (*PathSegment).associatedData
+//@   props C24
+//@   requires ps != nil && 0 <= idx && idx <= len(ps.ASEntries) && entriesOK(ps)
+//@   modifies nothing
+//@   loop 1 invariant 0 <= rangeint_iter && rangeint_iter < idx && len(associatedData) == 1 + 2*rangeint_iter && associatedData[0] == ps.Info.Raw
+//@   loop 1 invariant forall q int :: 0 <= q && q < rangeint_iter ==> associatedData[1+2*q] == ps.ASEntries[q].Signed.HeaderAndBody && associatedData[2+2*q] == ps.ASEntries[q].Signed.Signature
+//@   ensures len(result) == 1 + 2*idx && result[0] == ps.Info.Raw
+//@   ensures forall q int :: 0 <= q && q < idx ==> result[1+2*q] == ps.ASEntries[q].Signed.HeaderAndBody && result[2+2*q] == ps.ASEntries[q].Signed.Signature
+
+//@ func (*PathSegment).VerifyASEntry
+//@   props C24
+//@   requires ps != nil && verifier != nil && entriesOK(ps)
+//@   modifies vMsg, vLen, vOK, vUsedIA, vUsedNB, vUsedNA, okEntry[idx], okIA[idx], okNB[idx], okNA[idx]
+//@   gset okEntry[idx] := result == nil
+//@   gset okIA[idx] := vIA(verifier)
+//@   gset okNB[idx] := vNB(verifier)
+//@   gset okNA[idx] := vNA(verifier)
+//@   ensures result == nil ==> 0 <= idx && idx < len(ps.ASEntries)
+//@   ensures result == nil ==> vOK && vMsg == ps.ASEntries[idx].Signed && vLen == 1 + 2*idx && vUsedIA == vIA(verifier)
